@@ -1,8 +1,8 @@
 package sio
 
 import (
-	"github.com/karagenc/socket.io-go/internal/vhook"
 	"fmt"
+	"github.com/karagenc/socket.io-go/internal/vhook"
 	"reflect"
 	"time"
 
